@@ -837,19 +837,33 @@ func Cfgs() []Cfg {
 // ClassFrames: one well-formed frame per PayloadID class (1..29) sent from srcMAC with IPv4 source sip4 /
 // IPv6 source sip6 (whichever the class uses).
 func ClassFrames(g *G, srcMAC, sip4, sip6 []byte) map[int][]byte {
+	return classFrames(g, srcMAC, sip4, sip6, false)
+}
+
+// ClassFrames6: the same classes with every transport class carried over IPv6 (source sip6); PayloadIP4 (id 4), ARP
+// and the non-IP classes are as in ClassFrames.
+func ClassFrames6(g *G, srcMAC, sip4, sip6 []byte) map[int][]byte {
+	return classFrames(g, srcMAC, sip4, sip6, true)
+}
+
+func classFrames(g *G, srcMAC, sip4, sip6 []byte, over6 bool) map[int][]byte {
 	dst := g.Cfg.RouterMAC
-	ip4 := func(proto byte, seg []byte) []byte {
+	ip4only := func(proto byte, seg []byte) []byte {
 		return Ether(dst, srcMAC, 0x0800, IP4(5, 20+len(seg), proto, sip4, []byte{8, 8, 8, 8}, nil, seg))
 	}
 	ip6 := func(proto byte, seg []byte) []byte {
 		return Ether(dst, srcMAC, 0x86dd, IP6(len(seg), proto, sip6, IP6s[4], seg))
+	}
+	ip4 := ip4only
+	if over6 {
+		ip4 = ip6
 	}
 	udp := func(sp, dp int) []byte { return ip4(17, UDP(sp, dp, g.R.Bytes(12))) }
 	m := map[int][]byte{
 		1:  Ether(dst, srcMAC, 0x9000, g.R.Bytes(20)),
 		2:  Ether(dst, srcMAC, 100, g.R.Bytes(20)),
 		3:  Ether(MACBcast, srcMAC, 0x0806, ARP(6, 4, 1, srcMAC, sip4, dst, []byte{192, 168, 0, 11})),
-		4:  ip4(41, g.R.Bytes(20)),
+		4:  ip4only(41, g.R.Bytes(20)),
 		5:  ip6(59, g.R.Bytes(20)),
 		6:  ip4(1, ICMP(8, 0, 1, 1, g.R.Bytes(8))),
 		7:  ip6(58, ICMP(128, 0, 1, 1, g.R.Bytes(8))),
